@@ -1,4 +1,184 @@
-/- driver operations of C20 (stub: no model yet) -/
+/- driver operations of C20: the series each matplotlib artist of evo/tools/plot.py must hold -/
+import EvoModel.Model.Plot
 namespace Evo.Drv.C20
-def handle (_op : String) (_args : List String) : Option String := none
+open Evo Evo.Plot
+
+def hexDigit? (c : Char) : Option Nat :=
+  if '0' ≤ c ∧ c ≤ '9' then some (c.toNat - '0'.toNat)
+  else if 'a' ≤ c ∧ c ≤ 'f' then some (c.toNat - 'a'.toNat + 10)
+  else none
+
+def unhexGo : List Char → Option (List Char)
+  | [] => some []
+  | a :: b :: r => do
+      let x ← hexDigit? a
+      let y ← hexDigit? b
+      let rest ← unhexGo r
+      some (Char.ofNat (16 * x + y) :: rest)
+  | _ => none
+
+/-- ASCII strings only (unit values, labels) -/
+def unhex (s : String) : Option String :=
+  if s = "-" then some "" else (unhexGo s.toList).map String.ofList
+
+def hexNib (n : Nat) : Char := if n < 10 then Char.ofNat (48 + n) else Char.ofNat (87 + n)
+
+def hex (s : String) : String :=
+  if s.isEmpty then "-" else
+  String.ofList (s.toList.flatMap (fun c => [hexNib (c.toNat / 16), hexNib (c.toNat % 16)]))
+
+def toV3s : List Rat → List (V3 Rat)
+  | a :: b :: c :: r => ⟨a, b, c⟩ :: toV3s r
+  | _ => []
+
+/-- `k x y z …` (k positions) -/
+def readV3List (l : List String) : Option (List (V3 Rat) × List String) :=
+  match l with
+  | [] => none
+  | k :: rest => do
+      let n ← k.toNat?
+      let (a, b) ← takeN (3 * n) rest
+      let rs ← parseRats? a
+      some (toV3s rs, b)
+
+def showPts (l : List (List Rat)) : String := " ".intercalate (l.map showRats)
+def showSegs (l : List (List Rat × List Rat)) : String :=
+  toString l.length ++ " " ++ " ".intercalate (l.map (fun s => showRats s.1 ++ " " ++ showRats s.2))
+def showSegsOpt : Option (List (List Rat × List Rat)) → String
+  | none => "E_PLOT"
+  | some l => showSegs l
+
+def readOptRat (s : String) : Option (Option Rat) :=
+  if s = "-" then some none else (parseRat? s).map some
+
+/-- `hasStamps k stamps… start|-` -/
+def readTime (l : List String) : Option (Option (List Rat) × Option Rat × List String) :=
+  match l with
+  | has :: rest => do
+      let (ts, rest) ← readRatList rest
+      match rest with
+      | st :: rest => do
+          let s ← readOptRat st
+          some (if has = "1" then some ts else none, s, rest)
+      | [] => none
+  | [] => none
+
+def rnd : Rat → Rat := F64.rne!
+
+def showSeries (s : List Rat × List Rat) : String := showRats s.1 ++ " | " ++ showRats s.2
+
+/-- ops (mode = `xy`…`xyz`; positions as `k x y z …`):
+  `idx mode`                              → `xi yi zi|-`
+  `labels mode unithex`                   → `hex(x) hex(y) hex(z)|-` or `E_PLOT`
+  `xyzlabels unithex`                     → three hex labels or `E_PLOT`
+  `traj mode pos`                         → points, flattened
+  `startend mode pos`                     → `NONE` or the two points
+  `segs mode step ncolors pos`            → `n` segments (2 points each) or `E_PLOT`
+  `cmap mode pos k array…`                → `n` then per segment: 2 points and the colour value
+  `cmapmark k array…`                     → `NONE` or the two marker values
+  `axes mode scale k poses…`              → `NONE` | `E_PLOT` | segments
+  `edges mode pos1 pos2`                  → `E_PLOT` | segments
+  `time hasStamps k stamps… start|- n`    → x values
+  `xyz hasStamps k stamps… start|- pos`   → `x | c0 | c1 | c2`
+  `rpy hasStamps k stamps… start|- angles`→ `x | a0 | a1 | a2` (radians; the harness applies rad2deg)
+  `speeds k stamps… start|- k speeds…`    → `x | y`
+  `speedcore k stamps… pos`               → `d² dt …`
+  `err cumulative k err… hasx k x…`       → `x | y` -/
+def handle (op : String) (args : List String) : Option String :=
+  match op, args with
+  | "idx", [m] => do
+      let m ← PlotMode.ofName? m
+      let (xi, yi, zi) := modeIdx m
+      some (s!"{xi} {yi} " ++ (match zi with | some z => toString z | none => "-"))
+  | "labels", [m, u] => do
+      let m ← PlotMode.ofName? m
+      let u ← unhex u
+      match prepareAxisLabels m u with
+      | none => some "E_PLOT"
+      | some (x, y, z) => some (hex x ++ " " ++ hex y ++ " " ++ (match z with | some z => hex z | none => "-"))
+  | "xyzlabels", [u] => do
+      let u ← unhex u
+      match xyzLabels u with
+      | none => some "E_PLOT"
+      | some l => some (" ".intercalate (l.map hex))
+  | "traj", m :: rest => do
+      let m ← PlotMode.ofName? m
+      let (pos, _) ← readV3List rest
+      some (showPts (trajLine m pos))
+  | "startend", m :: rest => do
+      let m ← PlotMode.ofName? m
+      let (pos, _) ← readV3List rest
+      match startEnd m pos with
+      | none => some "NONE"
+      | some (s, e) => some (showRats s ++ " " ++ showRats e)
+  | "segs", m :: step :: nc :: rest => do
+      let m ← PlotMode.ofName? m
+      let step ← step.toNat?
+      let nc ← nc.toNat?
+      let (pos, _) ← readV3List rest
+      some (showSegsOpt (coloredLineCollection m step nc pos))
+  | "cmap", m :: rest => do
+      let m ← PlotMode.ofName? m
+      let (pos, rest) ← readV3List rest
+      let (arr, _) ← readRatList rest
+      let l := colormapPairs m pos arr
+      some (toString l.length ++ " " ++
+        " ".intercalate (l.map (fun s => showRats s.1.1 ++ " " ++ showRats s.1.2 ++ " " ++ showRat s.2)))
+  | "cmapmark", rest => do
+      let (arr, _) ← readRatList rest
+      match colormapMarkerValues arr with
+      | none => some "NONE"
+      | some (a, b) => some (showRat a ++ " " ++ showRat b)
+  | "axes", m :: scale :: rest => do
+      let m ← PlotMode.ofName? m
+      let scale ← parseRat? scale
+      let (poses, _) ← readPoseList rest
+      match coordAxes m scale poses with
+      | none => some "NONE"
+      | some r => some (showSegsOpt r)
+  | "edges", m :: rest => do
+      let m ← PlotMode.ofName? m
+      let (p1, rest) ← readV3List rest
+      let (p2, _) ← readV3List rest
+      some (showSegsOpt (corrEdges m p1 p2))
+  | "time", rest => do
+      let (ts, st, rest) ← readTime rest
+      match rest with
+      | [n] => do
+          let n ← n.toNat?
+          some (showRats (timeAxis rnd ts st n))
+      | _ => none
+  | "xyz", rest => do
+      let (ts, st, rest) ← readTime rest
+      let (pos, _) ← readV3List rest
+      let s0 := xyzSeries rnd ts st pos 0
+      some (showRats s0.1 ++ " | " ++ showRats s0.2 ++ " | " ++ showRats (xyzSeries rnd ts st pos 1).2
+        ++ " | " ++ showRats (xyzSeries rnd ts st pos 2).2)
+  | "rpy", rest => do
+      let (ts, st, rest) ← readTime rest
+      let (ang, _) ← readV3List rest
+      let s0 := rpySeries rnd id ts st ang 0
+      some (showRats s0.1 ++ " | " ++ showRats s0.2 ++ " | " ++ showRats (rpySeries rnd id ts st ang 1).2
+        ++ " | " ++ showRats (rpySeries rnd id ts st ang 2).2)
+  | "speeds", rest => do
+      let (ts, rest) ← readRatList rest
+      match rest with
+      | st :: rest => do
+          let st ← readOptRat st
+          let (sp, _) ← readRatList rest
+          some (showSeries (speedSeries rnd ts st sp))
+      | [] => none
+  | "speedcore", rest => do
+      let (ts, rest) ← readRatList rest
+      let (pos, _) ← readV3List rest
+      some (" ".intercalate ((speedCores pos ts).map (fun c => showRat c.1 ++ " " ++ showRat c.2)))
+  | "err", cum :: rest => do
+      let (err, rest) ← readRatList rest
+      match rest with
+      | hasx :: rest => do
+          let (x, _) ← readRatList rest
+          some (showSeries (errorSeries rnd err (if hasx = "1" then some x else none) (cum = "1")))
+      | [] => none
+  | _, _ => none
+
 end Evo.Drv.C20
